@@ -53,6 +53,7 @@ pub fn dispatch(op: &str, a: &[Term]) -> Option<Term> {
             let (c, pp) = zp(&a[0]).cont_pp();
             tl(vec![tb(&c), tzp(&pp)])
         }
+        "zp_content" => tb(&zp(&a[0]).content()),
         "qp_from_raw" => tqp(&qp(&a[0])),
         "qp_add" => tqp(&(&qp(&a[0]) + &qp(&a[1]))),
         "qp_sub" => tqp(&(&qp(&a[0]) - &qp(&a[1]))),
